@@ -426,8 +426,9 @@ def verify_one(args):
             # the historically slow clauses first, so that they do not end up alone at the end
             slow = ("preserve:content", "preserve:front", "preserve:values", "preserve:no_conflict", "preserve:rest", "preserve:sub")
             tasks.sort(key=lambda t: 0 if any(x in t[0] for x in slow) else 1)
-            with mp.Pool(inner) as pool:
-                solved = _collect_vcs(groups, pool.map(_solve_vc, tasks, chunksize=1))
+            solved = _collect_vcs(groups, robust_map(
+                _solve_vc, tasks, inner, mp,
+                lambda t: (t[0], False, 0.0, "the solver process crashed on this verification condition", "unknown")))
         else:
             solved = _collect_vcs(groups, [_solve_vc(t) for t in tasks])
         for x, fr in solved:
@@ -523,6 +524,42 @@ def verify_one(args):
                 "%s: %s\n%s" % (type(e).__name__, e, traceback.format_exc()[-1500:])}
 
 
+def robust_map(fn, tasks, workers, mp_context, crash_result):
+    """Like Executor.map over a process pool, but a worker that dies (z3 5.1.0 occasionally segfaults
+    inside libz3 when a query is cancelled at its time limit - seen under load, not reproducible per
+    query) does not take the run down: unfinished tasks are re-run in a fresh pool, and after two broken
+    pools each remaining task gets a pool of its own, so that only a task that crashes the solver by
+    itself ends as `crash_result(task)` (reported as a checker error / undecided, never as a verdict)."""
+    from concurrent.futures.process import BrokenProcessPool
+    results = [None] * len(tasks)
+    done = [False] * len(tasks)
+    pending = list(range(len(tasks)))
+    for attempt in range(2):
+        if not pending:
+            break
+        with cf.ProcessPoolExecutor(max_workers=min(workers, max(1, len(pending))), mp_context=mp_context) as ex:
+            futs = {i: ex.submit(fn, tasks[i]) for i in pending}
+            for i, f in futs.items():
+                try:
+                    results[i] = f.result()
+                    done[i] = True
+                except BrokenProcessPool:
+                    pass
+        pending = [i for i in pending if not done[i]]
+    if pending:
+        def alone(i):
+            try:
+                with cf.ProcessPoolExecutor(max_workers=1, mp_context=mp_context) as ex1:
+                    return ex1.submit(fn, tasks[i]).result()
+            except BrokenProcessPool:
+                return crash_result(tasks[i])
+        with cf.ThreadPoolExecutor(max_workers=min(workers, len(pending))) as tp:
+            for i, r in zip(pending, tp.map(alone, pending)):
+                results[i] = r
+    return results
+
+
+
 def verify(targets, tier="quick", mode="normal", tags=None, jobs=16):
     from lib.common import Obligation
     from .engine import ASSUMPTIONS, TRUSTED
@@ -559,10 +596,9 @@ def verify(targets, tier="quick", mode="normal", tags=None, jobs=16):
     # functions with hundreds of paths get their own solver pool whatever else is running
     work = [(w + (None,) * (4 - len(w)) + (8,)) if (w[0] in cons and cons[w[0]].ghost.get("heavy")) else w for w in work]
     work.sort(key=lambda w: 0 if (w[0] in cons and cons[w[0]].ghost.get("heavy")) else 1)
-    out = []
-    with cf.ProcessPoolExecutor(max_workers=min(jobs, max(1, len(work))),
-                                mp_context=ctx) as ex:
-        out = list(ex.map(verify_one, work))
+    out = robust_map(verify_one, work, min(jobs, max(1, len(work))), ctx,
+                     lambda w: {"function": w[0], "obls": [], "error":
+                                "the solver process crashed (segfault inside libz3) on every attempt"})
     obligations, functions, errors = [], [], []
     st = 0.0
     merged = {}
